@@ -210,6 +210,9 @@ func (a *Analyzer) gc(st *State, extra ...Term) {
 	for _, t := range extra {
 		m.term(t)
 	}
+	for _, t := range a.ExtraRoots {
+		m.term(t)
+	}
 	for _, d := range st.Defers {
 		m.term(d.fn)
 		for _, x := range d.args {
@@ -246,6 +249,50 @@ func (a *Analyzer) gc(st *State, extra ...Term) {
 	for loc := range st.Heap {
 		if a.freshObjs[loc.Obj] && !m.objs[loc.Obj] {
 			delete(st.Heap, loc)
+		}
+	}
+	// structural atoms (pure functions of live things, e.g. a byte of a live buffer) can be
+	// re-derived later, so facts about them stay meaningful: keep them live
+	recreatable := func(at *Atom) bool {
+		if at.Key == "" || len(at.Args) == 0 {
+			return false
+		}
+		for _, x := range at.Args {
+			switch v := x.(type) {
+			case Int:
+				for _, t := range v.L.Ts {
+					if !m.atoms[t.A] {
+						return false
+					}
+				}
+			case *baseRef:
+				if !m.bases[v.B.ID] {
+					return false
+				}
+			default:
+				return false
+			}
+		}
+		return true
+	}
+	for changed := true; changed; {
+		changed = false
+		mark := func(l Lin) {
+			for _, t := range l.Ts {
+				if !m.atoms[t.A] && recreatable(t.A) {
+					m.atoms[t.A] = true
+					changed = true
+				}
+			}
+		}
+		for _, l := range st.Cons.GEs {
+			mark(l)
+		}
+		for _, l := range st.Cons.EQs {
+			mark(l)
+		}
+		for _, l := range st.Cons.NEs {
+			mark(l)
 		}
 	}
 	dead := func(at *Atom) bool { return !m.atoms[at] }
